@@ -155,7 +155,7 @@ namespace
         return res;
     }
 
-    struct Cand { std::string label; std::vector<Ty> params; std::optional<Ty> out; };
+    struct Cand { std::string label; std::vector<Ty> params; std::optional<Ty> out; bool variadic{false}; };
 
     std::vector<Cand> candidates1()
     {
@@ -192,6 +192,25 @@ namespace
         add("int_float", ts(leaf("I")), ts(leaf("F")), ts(leaf("F")));
         return v;
     }
+    // variadic pool: the LAST parameter of a variadic candidate is its tail pattern (zero or more trailing arguments, each matched on
+    // its own: a tail argument must agree with every variable bound by the fixed parameters but does not bind the other tail arguments)
+    std::vector<Cand> candidatesV()
+    {
+        std::vector<Cand> v;
+        auto add = [&](const std::string &l, std::vector<Ty> ps, std::optional<Ty> o, bool var) { v.push_back({l, std::move(ps), std::move(o), var}); };
+        add("T_tailT", {ts(leaf("$T")), ts(leaf("$T"))}, ts(leaf("$T")), true);
+        add("T_tailU", {ts(leaf("$T")), ts(leaf("$U"))}, ts(leaf("$T")), true);
+        add("S_tailS", {leaf("%S"), leaf("%S")}, leaf("%S"), true);
+        add("S_tailR", {leaf("%S"), leaf("%R")}, leaf("%S"), true);
+        add("tslN_tailN", {tsl(ts(leaf("$T")), "#N"), tsl(ts(leaf("$T")), "#N")}, ts(leaf("$T")), true);
+        add("tslN_tailM", {tsl(ts(leaf("$T")), "#N"), tsl(ts(leaf("$U")), "#M")}, ts(leaf("$T")), true);
+        add("int_tailint", {ts(leaf("I")), ts(leaf("I"))}, ts(leaf("I")), true);
+        add("fix_T_T", {ts(leaf("$T")), ts(leaf("$T"))}, ts(leaf("$T")), false);
+        add("fix_T_U", {ts(leaf("$T")), ts(leaf("$U"))}, ts(leaf("$T")), false);
+        add("tail_only_T", {ts(leaf("$T"))}, ts(leaf("I")), true);
+        return v;
+    }
+    std::vector<Ty> arg_typesV() { return {ts(leaf("I")), ts(leaf("F")), ts(leaf("S")), tsl(ts(leaf("I")), "2"), tsl(ts(leaf("I")), "3"), tsl(ts(leaf("F")), "2")}; }
     std::vector<Ty> arg_types()
     {
         return {ts(leaf("I")), ts(leaf("F")), ts(leaf("S")), tsl(ts(leaf("I")), "2"), tsl(ts(leaf("I")), "3"), tsl(ts(leaf("F")), "2"), tsl(ts(leaf("I")), "0"),
@@ -232,8 +251,12 @@ namespace
             int pi = 0;
             for (auto &p : c.params) impl.params.push_back(ParamPattern{.kind = ParamPattern::Kind::Input, .name = "p" + std::to_string(pi++), .ts = ts_pattern(p)});
             if (c.out) { impl.has_output = true; impl.output = ts_pattern(*c.out); }
-            impl.rank = operator_dispatch_detail::operator_rank(impl.params);
+            impl.variadic = c.variadic;
+            impl.rank = operator_dispatch_detail::operator_rank(impl.params, impl.variadic);
+            // effective rank of a variadic candidate: its fixed parameters, plus the tail pattern once per consumed argument, plus one
             rank_of[c.label] = impl.rank;
+            if (c.variadic && args.size() + 1 >= c.params.size())
+                rank_of[c.label] += operator_dispatch_detail::param_pattern_rank(impl.params.back()) * static_cast<int>(args.size() - (c.params.size() - 1)) + 1;
             reg.register_overload(std::move(impl));
         }
         std::vector<WiringArg> wargs;
@@ -243,10 +266,13 @@ namespace
         for (int idx : order)
         {
             const Cand &c = pool[static_cast<std::size_t>(idx)];
-            Bind b; bool ok = c.params.size() == args.size();
+            const std::size_t fixed = c.variadic ? c.params.size() - 1 : c.params.size();
+            Bind b; bool ok = c.variadic ? args.size() >= fixed : c.params.size() == args.size();
             // a caller-pinned SIZE (one hint) binds the candidate's first size variable before matching
             if (hint != 0) { const std::string sv = first_size_var(c); if (!sv.empty()) b[sv] = std::to_string(hint); }
-            for (std::size_t i = 0; ok && i < args.size(); ++i) ok = unify(c.params[i], args[i], b);
+            for (std::size_t i = 0; ok && i < fixed; ++i) ok = unify(c.params[i], args[i], b);
+            // each tail argument in a throw-away copy of the bindings made by the fixed parameters
+            for (std::size_t i = fixed; ok && i < args.size(); ++i) { Bind scope = b; ok = unify(c.params.back(), args[i], scope); }
             if (ok) matches[c.label] = b;
         }
         ResolvedOperatorCall res;
@@ -289,8 +315,8 @@ namespace
             if (l == w) continue;
             const Cand *oc = nullptr;
             for (auto &c : pool) if (c.label == l) oc = &c;
-            int agg = 0; bool comparable = true;
-            for (std::size_t i = 0; i < wc->params.size(); ++i)
+            int agg = 0; bool comparable = !wc->variadic && !oc->variadic && wc->params.size() == oc->params.size();
+            for (std::size_t i = 0; comparable && i < wc->params.size(); ++i)
             {
                 const int d = doc_order(oc->params[i], wc->params[i]);   // -1: other more specific
                 if (d != 0) { if (agg != 0 && agg != d) comparable = false; agg = d; }
@@ -355,9 +381,9 @@ namespace
         auto parts = std::vector<std::string>{};
         { std::string cur; for (char ch : desc) { if (ch == '|') { parts.push_back(cur); cur.clear(); } else cur += ch; } parts.push_back(cur); }
         const int arity = std::stoi(parts.at(0));
-        const std::vector<Cand> pool = arity == 1 ? candidates1() : candidates2();
+        const std::vector<Cand> pool = arity == 1 ? candidates1() : arity == 2 ? candidates2() : candidatesV();
         std::vector<int> fam; { std::string cur; for (char ch : parts.at(1)) { if (ch == ',') { fam.push_back(std::stoi(cur)); cur.clear(); } else cur += ch; } fam.push_back(std::stoi(cur)); }
-        std::vector<Ty> args; { const auto at = arg_types(); std::string cur; for (char ch : parts.at(2)) { if (ch == ',') { args.push_back(at[static_cast<std::size_t>(std::stoi(cur))]); cur.clear(); } else cur += ch; } args.push_back(at[static_cast<std::size_t>(std::stoi(cur))]); }
+        std::vector<Ty> args; { const auto at = arity == 3 ? arg_typesV() : arg_types(); std::string cur; for (char ch : parts.at(2)) { if (ch == ',') { args.push_back(at[static_cast<std::size_t>(std::stoi(cur))]); cur.clear(); } else cur += ch; } args.push_back(at[static_cast<std::size_t>(std::stoi(cur))]); }
         const int hint = parts.size() > 3 && !parts[3].empty() ? std::stoi(parts[3].substr(1)) : 0;
         std::sort(fam.begin(), fam.end());
         std::string first;
@@ -382,6 +408,7 @@ namespace
 void verif_init() { stdlib::register_standard_operators(); }
 std::optional<std::string> verif_run_case(verif::Ctx &, const std::string &desc) { return run_family_case(desc); }
 
+void enumerate_variadic(verif::Ctx &ctx);
 void verif_enumerate(verif::Ctx &ctx)
 {
     const bool th = ctx.thorough();
@@ -434,6 +461,54 @@ void verif_enumerate(verif::Ctx &ctx)
                     if (hint) ctx.count("cases_with_size_hint");
                   }
                 }
+        }
+    }
+    enumerate_variadic(ctx);
+}
+
+void enumerate_variadic(verif::Ctx &ctx)
+{
+    const bool th = ctx.thorough();
+    const int max_family = th ? 4 : 3;
+    const int max_args = th ? 4 : 3;
+    const std::size_t n = candidatesV().size(), na = arg_typesV().size();
+    std::vector<std::vector<int>> families;
+    std::function<void(std::vector<int> &, std::size_t)> rec = [&](std::vector<int> &cur, std::size_t start) {
+        if (!cur.empty()) families.push_back(cur);
+        if (static_cast<int>(cur.size()) == max_family) return;
+        for (std::size_t i = start; i < n; ++i) { cur.push_back(static_cast<int>(i)); rec(cur, i + 1); cur.pop_back(); }
+    };
+    std::vector<int> cur;
+    rec(cur, 0);
+    std::vector<std::string> tuples;
+    std::function<void(std::string, int)> recA = [&](std::string t, int len) {
+        if (len > 0) tuples.push_back(t);
+        if (len == max_args) return;
+        for (std::size_t a = 0; a < na; ++a) recA(t + (len ? "," : "") + std::to_string(a), len + 1);
+    };
+    recA("", 0);
+    for (auto &fam : families)
+    {
+        std::string fs; for (std::size_t i = 0; i < fam.size(); ++i) fs += (i ? "," : "") + std::to_string(fam[i]);
+        for (auto &tu : tuples)
+        {
+            if (!ctx.next_is_mine()) continue;
+            const std::string desc = "3|" + fs + "|" + tu;
+            ++ctx.evaluations;
+            std::string sig; bool nt = false; std::uint64_t resolves = 0;
+            auto v = run_family_case(desc, &sig, &nt, &resolves);
+            ctx.transitions += resolves; ctx.traces += resolves;
+            ctx.state("3|" + fs + "|" + sig);
+            if (nt) ctx.nontriv(desc);
+            ctx.count("families_variadic");
+            if (sig.rfind("W:", 0) == 0 && tu.find(',') != std::string::npos) ctx.count("variadic_resolved_with_tail");
+            if (v)
+            {
+                auto v2 = run_family_case(desc);
+                if (!v2 || *v2 != *v) throw verif::HarnessError("case not reproducible: " + desc);
+                ctx.violation(desc, *v, "variadic: " + v->substr(v->find("] ") == std::string::npos ? 0 : v->find("] ") + 2, 60));
+            }
+            else if (ctx.evaluations % 9973 == 1) ctx.sample("cases", desc + " => " + sig);
         }
     }
 }
